@@ -1207,10 +1207,17 @@ bus_service_remove_owner (BusService     *service,
       BusOwner *temp_owner;
 
       link = _bus_service_find_owner_link (service, connection);
-      _dbus_list_unlink (&service->owners, link);
       temp_owner = (BusOwner *)link->data;
-      bus_owner_unref (temp_owner); 
-      _dbus_list_free_link (link);
+
+      /* put us back in the same place if the transaction is cancelled */
+      if (!add_restore_ownership_to_transaction (transaction, service,
+                                                 temp_owner))
+        {
+          BUS_SET_OOM (error);
+          return FALSE;
+        }
+
+      bus_service_unlink_owner (service, temp_owner);
 
       return TRUE; 
     }
